@@ -674,14 +674,19 @@ fn check_assembler_history(ctx: &mut Ctx, bg: &[u8], start: usize, ops: &[(usize
 }
 
 fn random_assembler_history(ctx: &mut Ctx, rng: &mut Rng) {
-    let len = rng.range(1, 40) as usize;
+    // mostly small buffers; one in twelve has the size of a whole message body / frame buffer, written near its end
+    let big = rng.chance(1, 12);
+    let len = if big { *rng.pick(&[1021usize, 1022, 1023, 1024, 1025, 1026, 1029, 2048]) } else { rng.range(1, 40) as usize };
     let mut bg = vec![0u8; len];
     match rng.below(3) {
         0 => {}
         1 => bg.iter_mut().for_each(|b| *b = 0xFF),
         _ => rng.fill(&mut bg),
     }
-    let start = rng.usize_below(17.min(len * 8));
+    let start = if big { len * 8 - rng.range(1, 300) as usize } else { rng.usize_below(17.min(len * 8)) };
+    if big {
+        ctx.count("assembler_histories_at_the_end_of_a_body_sized_buffer");
+    }
     let n = rng.range(2, 16) as usize;
     let mut ops = Vec::with_capacity(n);
     let mut pos = start;
@@ -715,9 +720,10 @@ fn random_assembler_history(ctx: &mut Ctx, rng: &mut Rng) {
 }
 
 fn random_parser_history(ctx: &mut Ctx, rng: &mut Rng) {
-    let len = rng.range(1, 40) as usize;
+    let big = rng.chance(1, 12);
+    let len = if big { *rng.pick(&[1021usize, 1022, 1023, 1024, 1025, 1026, 1029, 2048]) } else { rng.range(1, 40) as usize };
     let buf = rng.bytes(len);
-    let start = rng.usize_below(17.min(len * 8));
+    let start = if big { len * 8 - rng.range(1, 300) as usize } else { rng.usize_below(17.min(len * 8)) };
     let n = rng.range(2, 16) as usize;
     let mut ops = Vec::with_capacity(n);
     let mut pos = start;
